@@ -922,6 +922,27 @@ class Multiplexer(utils.EventEmitter):
                 # Not expected, this is an initiator-side number
                 # TODO: error out
                 logger.warning(f'invalid DLCI: {pn.dlci}')
+            elif (
+                existing_dlc := self.dlcs.get(pn.dlci)
+            ) and existing_dlc.state == DLC.State.CONNECTED:
+                # The parameters of an open DLC can't be renegotiated: keep the
+                # DLC and respond with its current parameters
+                logger.warning(f'PN command for an open DLCI: {pn.dlci}')
+                response = RFCOMM_MCC_PN(
+                    dlci=pn.dlci,
+                    cl=0xE0,
+                    priority=7,
+                    ack_timer=0,
+                    max_frame_size=existing_dlc.rx_max_frame_size,
+                    max_retransmissions=0,
+                    initial_credits=0,
+                )
+                mcc = RFCOMM_Frame.make_mcc(
+                    mcc_type=MccType.PN, c_r=0, data=bytes(response)
+                )
+                self.send_frame(
+                    RFCOMM_Frame.uih(c_r=existing_dlc.c_r, dlci=0, information=mcc)
+                )
             else:
                 if self.acceptor:
                     channel_number = pn.dlci >> 1
